@@ -34,6 +34,12 @@ def make_namespace(nsd):
         ns.add_taxon(Taxon(label=l))
     for l in nsd.get("removed", ()):
         ns.remove_taxon(ns.get_taxon(label=l))
+    if nsd.get("copied"):
+        # the namespace the trees live in is a COPY (copy constructor) of one whose bits had already been handed out and looked up:
+        # every copied taxon keeps the bit of its original (C10), and what is added to the copy gets a bit nobody has
+        for t in list(ns):
+            ns.taxon_bitmask(t)
+        ns = TaxonNamespace(ns)
     for l in nsd.get("added", ()):
         ns.add_taxon(Taxon(label=l))      # accessioned AFTER the removals: gets a new bit, never one in use
     order = nsd.get("order", "asis")
@@ -110,6 +116,8 @@ def ns_key(nsd):
     s = "ns%d" % nsd["total"]
     if nsd.get("removed"):
         s += "-" + "".join(nsd["removed"])
+    if nsd.get("copied"):
+        s += "/copied"
     if nsd.get("order", "asis") != "asis":
         s += "/" + nsd["order"]
     return s
@@ -185,6 +193,7 @@ def namespace_variants(n, full=True):
     late = LABELS[n + 1]
     use3 = [l for l in LABELS[1:n + 1] if l != mid] + [late]
     out.append(({"total": n + 1, "removed": [mid], "added": [late], "order": "asis"}, use3[-n:]))   # a taxon added after a removal
+    out.append(({"total": n + 1, "removed": [mid], "copied": True, "added": [late], "order": "asis"}, use3[-n:]))   # ... to a copy of the namespace
     return out
 
 
